@@ -153,7 +153,8 @@ def run(index, rep, tier):
         if isinstance(n, ast.If):
             cur = n
             while isinstance(cur, ast.If):
-                if cur.body and isinstance(cur.body[0], ast.Assign) and norm(cur.body[0].targets[0]) == "rooting" and isinstance(cur.body[0].value, ast.Constant):
+                if cur.body and isinstance(cur.body[0], ast.Assign) and isinstance(cur.body[0].value, ast.Constant) and isinstance(cur.body[0].value.value, str) \
+                        and (cur.body[0].value.value.strip() == "" or cur.body[0].value.value.strip().startswith("[&")):
                     wpol[norm(cur.test)] = cur.body[0].value.value.strip()
                 cur = cur.orelse[0] if cur.orelse and isinstance(cur.orelse[0], ast.If) else None
     ok = wpol.get("tree.is_rooted") == "[&R]" and wpol.get("not tree.is_rooted") == "[&U]" and any(v == "" for k, v in wpol.items() if "undefined" in k or "suppress_rooting" in k)
